@@ -149,6 +149,26 @@ def outbound_history(rng):
     ops.append("T dump")
     return ops
 
+def moving_receiver_history(rng):
+    """the receiver moves between calls (radar takes its position from gpsd) while an aircraft keeps sending: the very same report again, the
+    other format from the same place, or a report from a few hundred metres on. After every accepted report the distance must be the one from
+    the receiver of that call."""
+    rx = rng.choice([(39.0, -77.0), (52.3, 4.8), (-33.9, 151.2), (64.1, -21.9)])
+    ops = ["T reset %s %s %s" % (rx[0], rx[1], rng.choice([500, 800]))]
+    f = Flight(rng, rng.bits(24), rx, plain=True)
+    f.lat = Fr(rx[0]) + Fr(rng.below(600) - 300, 1000); f.lon = Fr(rx[1]) + Fr(rng.below(600) - 300, 1000)
+    last = {0: f.position(rng, odd=0), 1: f.position(rng, odd=1)}
+    ops += [hexop("T act", last[0]), hexop("T act", last[1])]
+    for k in range(10):
+        ops.append("T rx %.4f %.4f" % (rx[0] + (rng.below(3000) - 1500) / 1000.0, rx[1] + (rng.below(3000) - 1500) / 1000.0))
+        r = rng.below(4)
+        if r < 2: ops.append(hexop("T act", last[rng.below(2)]))                 # the same squitter again
+        else:
+            if r == 3: f.step(rng)
+            odd = rng.below(2); last[odd] = f.position(rng, odd=odd); ops.append(hexop("T act", last[odd]))
+    ops.append("T dump")
+    return ops
+
 def wrap_history(rng):
     """places where a plain difference of coordinates is not a distance: a flight across the 180-degree meridian (eastbound or westbound, at
     several latitudes), and hops over a polar cap (same latitude, longitude 180 degrees apart: 89 km at 89.6 degrees). Every step is within the
